@@ -492,12 +492,8 @@ def check_db_to_json(sc):
     out = []
     r = db_to_json_case(sc)
     if 'error' in r:
-        pending = any(m[0] in ('new_s', 'new_k') for m in sc.get('mods', []))
         e = r['error']
-        if pending and ((e.startswith('AssertionError') and "'id': None" in e) or (e.startswith('TypeError') and 'NoneType' in e)):
-            # two keyless new objects meet under the key None (`assert not d`), or None is sorted against ints
-            return [('db.to_json:new-object-pk-null', {'error': e})]
-        return [('db.to_json:EXC', {'error': e})]
+        return [('db.to_json:EXC:' + e.split(':')[0], {'error': e})]
     parsed, want = r['parsed'], r['want']
     exp_sections = {'none': ['data', 'objects'], 'full': ['data', 'objects', 'schema', 'schema_hash'], 'hash': ['data', 'objects', 'schema_hash']}[r['mode']]
     if sorted(parsed) != sorted(exp_sections): out.append(('db.to_json:wrong-sections', {'got': sorted(parsed), 'want': exp_sections}))
@@ -509,3 +505,81 @@ def check_db_to_json(sc):
         else:
             out.append(('db.to_json:wrong-values', {'got': got, 'want': want}))
     return out
+
+
+
+# ================================================================================================ Database.to_json and can_view
+def make_db3():
+    """the G/S/K model again, but the current user (anybody) may view groups and students only, not courses"""
+    from pony import orm
+    if 'db3' in _state:
+        db = _state['db3']
+        db.drop_all_tables(with_all_data=True)
+        db.create_tables()
+        return db, _state['G3'], _state['S3'], _state['K3']
+    db = orm.Database()
+    class G(db.Entity):
+        number = orm.PrimaryKey(int)
+        students = orm.Set('S')
+    class S(db.Entity):
+        name = orm.Required(str)
+        group = orm.Optional(G)
+        courses = orm.Set('K')
+    class K(db.Entity):
+        name = orm.Required(str)
+        students = orm.Set(S)
+    db.bind('sqlite', ':memory:')
+    db.generate_mapping(create_tables=True)
+    with db.set_perms_for(G, S):
+        orm.perm('view', group='anybody')
+    _state.update(db3=db, G3=G, S3=S, K3=K)
+    return db, G, S, K
+
+
+def db_to_json_perm_case(sc):
+    """committed G/S/K state of a scenario, probe objects as data, sc['include']: does to_json raise PermissionError, and if not, which
+    objects does it ship?  Returns (raised: bool, shipped: set of (kind, index)), plus the graph for the model."""
+    from pony import orm
+    db, G, S, K = make_db3()
+    studs = [{'group': g, 'courses': set(cs)} for g, cs in sc['students']]
+    n_g, n_k = sc['groups'], sc['courses']
+    with orm.db_session:
+        gobj = [G(number=i + 1) for i in range(n_g)]
+        kobj = [K(name='k%d' % (i + 1)) for i in range(n_k)]
+        orm.flush()
+        for i, st in enumerate(studs):
+            S(name='s%d' % (i + 1), group=None if st['group'] is None else gobj[st['group']], courses=[kobj[c] for c in sorted(st['courses'])]); orm.flush()
+    names = list(sc.get('include', []))
+    universe = [('g', i) for i in range(n_g)] + [('k', i) for i in range(n_k)] + [('s', i) for i in range(len(studs))]
+    def succ(node):
+        kind, i = node
+        out = []
+        if kind == 'g' and 'G.students' in names: out += [('s', x) for x in range(len(studs)) if studs[x]['group'] == i]
+        if kind == 's':
+            if 'S.group' in names and studs[i]['group'] is not None: out.append(('g', studs[i]['group']))
+            if 'S.courses' in names: out += [('k', c) for c in sorted(studs[i]['courses'])]
+        if kind == 'k' and 'K.students' in names: out += [('s', x) for x in range(len(studs)) if i in studs[x]['courses']]
+        return out
+    probe = [p for p in sc['probe'] if tuple(p) in universe]
+    if not probe: return None
+    roots = []
+    for p in probe:
+        if tuple(p) not in roots: roots.append(tuple(p))
+    with orm.db_session:
+        ent = {'G': G, 'S': S, 'K': K}
+        include = [getattr(ent[n.split('.')[0]], n.split('.')[1]) for n in names]
+        pick = lambda kind, i: {'g': G, 'k': K, 's': S}[kind][i + 1]
+        try:
+            parsed = json.loads(db.to_json([pick(k, i) for k, i in probe], include=include, with_schema=False))
+            raised = False
+        except orm.core.PermissionError:
+            raised, parsed = True, None
+    shipped = set()
+    if parsed is not None:
+        cls = {'G': 'g', 'S': 's', 'K': 'k'}
+        for ref in parsed['data']: shipped.add((cls[ref['class']], ref['pk'] - 1))
+        for e, objs in parsed['objects'].items():
+            for key in objs: shipped.add((cls[e], int(key) - 1))
+    return {'raised': raised, 'shipped': sorted(universe.index(n) for n in shipped), 'universe': universe,
+            'succ': {universe.index(n): [universe.index(x) for x in succ(n)] for n in universe}, 'roots': [universe.index(n) for n in roots],
+            'viewable': [universe.index(n) for n in universe if n[0] != 'k']}
